@@ -111,6 +111,12 @@ struct Input {
     acct: Option<Vec<(u64, u64, u64)>>,
     /// ReconnectionBackoffPolicy (initial ms, multiplier, max ms) used with `acct`
     backoff: (u64, u64, u64),
+    /// extreme but legal request_timeout configurations; `tau` then holds the milliseconds the
+    /// model works with: "max" = Duration::MAX, "u64secs" = Duration::from_secs(u64::MAX) (both
+    /// unrepresentable as a deadline: no run ever reaches them, tau = 4e15 ms stands in),
+    /// "1ns" = one nanosecond (tau = 1: tokio rounds deadlines up to the ms), "1e9s" = 10^9 s
+    /// (tau = 10^12)
+    tau_kind: Option<String>,
 }
 
 fn beh_json(b: &Beh) -> Value {
@@ -143,6 +149,7 @@ impl Input {
             "stop": self.stop, "via_init": self.via_init, "flood": self.flood, "jitter": self.jitter, "close_rx_at": self.close_rx_at,
             "acct": self.acct.as_ref().map(|v| v.iter().map(|(t, k, h)| json!({"end": t, "fails": k, "how": h})).collect::<Vec<_>>()),
             "backoff": [self.backoff.0, self.backoff.1, self.backoff.2],
+            "tau_kind": self.tau_kind,
             "script": self.script.iter().map(|r| json!({
                 "k": if r.open { "o" } else { "c" }, "x": r.x, "i": r.i, "cid": r.cid, "at": r.at,
                 "b": beh_json(&r.b)})).collect::<Vec<_>>(),
@@ -193,6 +200,48 @@ impl Input {
                 v["backoff"][1].as_u64().unwrap_or(2).clamp(1, 255),
                 v["backoff"][2].as_u64().unwrap_or(40).max(1),
             ),
+            tau_kind: v["tau_kind"].as_str().map(|k| k.to_string()),
+        }
+        .normalised()
+    }
+}
+
+const TAU_UNREACHABLE_MS: u64 = 4_000_000_000_000_000;
+
+impl Input {
+    /// make `tau` (the model's milliseconds) agree with `tau_kind`; with an unrepresentable
+    /// timeout a request nobody answers would simply stay outstanding until shutdown, so every
+    /// client answers there
+    fn normalised(mut self) -> Input {
+        match self.tau_kind.as_deref() {
+            Some("max") | Some("u64secs") => {
+                self.tau = TAU_UNREACHABLE_MS;
+                for r in self.script.iter_mut() {
+                    if matches!(r.b, Beh::Never) {
+                        r.b = Beh::Respond { d: 7, ok: true, full: false, e: 0 };
+                    }
+                }
+                self.jitter = 0;
+            }
+            Some("1ns") => {
+                self.tau = 1;
+                self.jitter = 0;
+            }
+            Some("1e9s") => {
+                self.tau = 1_000_000_000_000;
+                self.jitter = 0;
+            }
+            _ => self.tau_kind = None,
+        }
+        self
+    }
+    fn real_timeout(&self) -> Duration {
+        match self.tau_kind.as_deref() {
+            Some("max") => Duration::MAX,
+            Some("u64secs") => Duration::from_secs(u64::MAX),
+            Some("1ns") => Duration::from_nanos(1),
+            Some("1e9s") => Duration::from_secs(1_000_000_000),
+            _ => real(self.tau, self.jitter, 3),
         }
     }
 }
@@ -708,7 +757,7 @@ where
     let horizon = inp
         .script
         .iter()
-        .map(|r| r.at + inp.tau.max(match r.b { Beh::Respond { d, .. } | Beh::BadKey { d, .. } | Beh::Panic { d } => d.min(inp.tau), Beh::Never => 0 }))
+        .map(|r| r.at + match r.b { Beh::Respond { d, .. } | Beh::BadKey { d, .. } | Beh::Panic { d } => d.min(inp.tau), Beh::Never => inp.tau })
         .max()
         .unwrap_or(0)
         + 50;
@@ -800,7 +849,7 @@ fn run_on_runtime(inp: Input) -> Ran {
             table.entry((r.open, r.cid)).or_default().push_back(r.b.clone());
         }
         let client = Arc::new(Scripted::new((Arc::new(Mutex::new(table)), exchange, Beh::Never, inp.jitter, inp.acct.clone().unwrap_or_default())));
-        let tau = real(inp.tau, inp.jitter, 3);
+        let tau = inp.real_timeout();
         let (req_tx, req_rx) = mpsc_unbounded::<ExecutionRequest>();
         let start = tokio::time::Instant::now();
         if inp.via_init || inp.acct.is_some() {
@@ -1142,6 +1191,7 @@ fn emit(em: &mut Emitter, stream: &'static str, inp: &Input) {
     if inp.close_rx_at.is_some() { tags.push("response_receiver_dropped".into()) }
     if inp.jitter != 0 { tags.push("sub_ms_jitter".into()) }
     if inp.tau == 0 { tags.push("timeout_zero".into()) }
+    if let Some(k) = &inp.tau_kind { tags.push(format!("timeout_kind:{k}")) }
     // a client future that panics before its timeout: the (first) such instant
     let crash_at = inp
         .script
@@ -1233,7 +1283,7 @@ fn gen_world(r: &mut Rng) -> World {
 
 fn world_of(exchanges: Vec<usize>, instr: Vec<usize>, mgr: usize) -> World {
     let n_ex = exchanges.len();
-    let probe = Input { exchanges: exchanges.clone(), instr: instr.clone(), mgr, tau: 1, stop: None, via_init: false, script: vec![], flood: None, jitter: 0, close_rx_at: None, acct: None, backoff: (5, 2, 40) };
+    let probe = Input { exchanges: exchanges.clone(), instr: instr.clone(), mgr, tau: 1, stop: None, via_init: false, script: vec![], flood: None, jitter: 0, close_rx_at: None, acct: None, backoff: (5, 2, 40), tau_kind: None };
     let instruments = build_instruments(&probe);
     let ex = POOL[mgr];
     let ex_index = instruments.exchanges().iter().find(|e| e.value == ex).unwrap().key.0;
@@ -1329,7 +1379,7 @@ fn gen_random(r: &mut Rng, max_req: u64) -> Input {
     let burst = r.chance(1, 3);
     let script = gen_script(r, &w, tau, n_req, false, 0, false, burst);
     let jitter = if r.chance(1, 3) { 1 + r.below(1_000_000) } else { 0 };
-    Input { exchanges: w.exchanges, instr: w.instr, mgr: w.mgr, tau, stop: None, via_init: r.chance(1, 4), script, flood: None, jitter, close_rx_at: None, acct: None, backoff: (5, 2, 40) }
+    Input { exchanges: w.exchanges, instr: w.instr, mgr: w.mgr, tau, stop: None, via_init: r.chance(1, 4), script, flood: None, jitter, close_rx_at: None, acct: None, backoff: (5, 2, 40), tau_kind: None }
 }
 
 fn gen_adversarial(r: &mut Rng, max_req: u64) -> Input {
@@ -1412,7 +1462,7 @@ fn gen_adversarial(r: &mut Rng, max_req: u64) -> Input {
         }
     }
     let jitter = if style == 8 || r.chance(1, 5) { 1 + r.below(1_000_000) } else { 0 };
-    Input { exchanges: w.exchanges, instr: w.instr, mgr: w.mgr, tau, stop, via_init: r.chance(1, 4), script, flood: None, jitter, close_rx_at, acct: None, backoff: (5, 2, 40) }
+    Input { exchanges: w.exchanges, instr: w.instr, mgr: w.mgr, tau, stop, via_init: r.chance(1, 4), script, flood: None, jitter, close_rx_at, acct: None, backoff: (5, 2, 40), tau_kind: None }
 }
 
 /// the manager serves the middle exchange (by index) of three
@@ -1462,6 +1512,25 @@ fn gen_retries(r: &mut Rng, w: &World, tau: u64, n_req: u64) -> Vec<Req> {
     script
 }
 
+/// L14 (B) / seed c07-8: extreme but legal request_timeout configurations
+fn gen_extreme_timeout(r: &mut Rng, max_req: u64, kind: &str) -> Input {
+    let w = if r.chance(1, 2) { gen_world_middle(r) } else { gen_world(r) };
+    // delays and gaps are drawn as for an ordinary timeout of this size
+    let nominal = match kind {
+        "1ns" => 1,
+        _ => *r.pick(&[5u64, 50, 1000]),
+    };
+    let n_req = 1 + r.below(max_req);
+    let (dup, burst) = (r.chance(1, 4), r.chance(1, 3));
+    let script = gen_script(r, &w, nominal, n_req, kind == "1ns", 0, dup, burst);
+    Input {
+        exchanges: w.exchanges, instr: w.instr, mgr: w.mgr, tau: nominal, stop: None, via_init: r.chance(1, 3),
+        script, flood: None, jitter: 0, close_rx_at: None, acct: None, backoff: (5, 2, 40),
+        tau_kind: Some(kind.to_string()),
+    }
+    .normalised()
+}
+
 /// L4 / seed c07-7: the account stream behind ExecutionManager::init ends and is re-initialised
 /// (failing 0..=2 times first) while requests are in flight
 fn gen_acct(r: &mut Rng, max_req: u64) -> Input {
@@ -1487,12 +1556,12 @@ fn gen_acct(r: &mut Rng, max_req: u64) -> Input {
         let fails = *r.pick(&[0u64, 1, 1, 2, 2, 3]);
         sched.push((t, fails, r.below(2)));
         // the next connection exists from here on
-        let mut probe = Input { exchanges: vec![], instr: vec![], mgr: 0, tau, stop: None, via_init: true, script: vec![], flood: None, jitter: 0, close_rx_at: None, acct: Some(vec![(t, fails, 0)]), backoff };
+        let mut probe = Input { exchanges: vec![], instr: vec![], mgr: 0, tau, stop: None, via_init: true, script: vec![], flood: None, jitter: 0, close_rx_at: None, acct: Some(vec![(t, fails, 0)]), backoff, tau_kind: None };
         t = acct_times(&probe)[0].1;
         probe.acct = None;
     }
     let jitter = if r.chance(1, 4) { 1 + r.below(1_000_000) } else { 0 };
-    Input { exchanges: w.exchanges, instr: w.instr, mgr: w.mgr, tau, stop: None, via_init: true, script, flood: None, jitter, close_rx_at: None, acct: Some(sched), backoff }
+    Input { exchanges: w.exchanges, instr: w.instr, mgr: w.mgr, tau, stop: None, via_init: true, script, flood: None, jitter, close_rx_at: None, acct: Some(sched), backoff, tau_kind: None }
 }
 
 /// small exhaustive table for the account-stream dimension: failed re-initialisations 0..=2 x how
@@ -1519,7 +1588,7 @@ fn acct_table(em: &mut Emitter) {
                 }
                 let inp = Input {
                     exchanges: vec![0, 1, 2], instr: vec![2, 2, 2], mgr: 0, tau, stop: None, via_init: true,
-                    script, flood: None, jitter: 0, close_rx_at: None, acct: Some(sched), backoff: (5, 2, 40),
+                    script, flood: None, jitter: 0, close_rx_at: None, acct: Some(sched), backoff: (5, 2, 40), tau_kind: None,
                 };
                 emit(em, "table", &inp);
             }
@@ -1544,7 +1613,7 @@ fn table(em: &mut Emitter) {
         behs.push(Beh::BadKey { d, v: 0 });
         behs.push(Beh::BadKey { d, v: 1 });
     }
-    let base = |script: Vec<Req>| Input { exchanges: vec![0, 1, 2], instr: vec![2, 2, 2], mgr: 0, tau, stop: None, via_init: false, script, flood: None, jitter: 0, close_rx_at: None, acct: None, backoff: (5, 2, 40) };
+    let base = |script: Vec<Req>| Input { exchanges: vec![0, 1, 2], instr: vec![2, 2, 2], mgr: 0, tau, stop: None, via_init: false, script, flood: None, jitter: 0, close_rx_at: None, acct: None, backoff: (5, 2, 40), tau_kind: None };
     // Kraken is pool 0; index order: BinanceSpot(0), Kraken(1), Okx(2): the manager serves the middle
     // exchange; Kraken's instruments are 2 and 3 (a future and an option)
     for open in [true, false] {
@@ -1582,6 +1651,30 @@ fn main() {
             let (n_rand, n_adv, max_req) = if args.tier == "thorough" { (5000, 4000, 60) } else { (500, 500, 24) };
             table(&mut em);
             acct_table(&mut em);
+            for kind in ["max", "u64secs", "1ns", "1e9s"] {
+                // one request alone, answered at once / later / with an error / (finite kinds) never
+                for (open, b) in [
+                    (true, Beh::Respond { d: 0, ok: true, full: true, e: 0 }),
+                    (false, Beh::Respond { d: 3, ok: true, full: false, e: 0 }),
+                    (true, Beh::Respond { d: 5000, ok: false, full: false, e: 1 }),
+                    (false, Beh::Never),
+                ] {
+                    for via_init in [false, true] {
+                        let inp = Input {
+                            exchanges: vec![0, 1, 2], instr: vec![2, 2, 2], mgr: 0, tau: 10, stop: None, via_init,
+                            script: vec![Req { open, x: 1, i: 3, cid: 7, at: 5, b: b.clone() }],
+                            flood: None, jitter: 0, close_rx_at: None, acct: None, backoff: (5, 2, 40),
+                            tau_kind: Some(kind.to_string()),
+                        }
+                        .normalised();
+                        emit(&mut em, "table", &inp);
+                    }
+                }
+                for _ in 0..(if args.tier == "thorough" { 100 } else { 12 }) {
+                    let inp = gen_extreme_timeout(&mut r, max_req / 2 + 1, kind);
+                    emit(&mut em, "adversarial", &inp);
+                }
+            }
             for _ in 0..(if args.tier == "thorough" { 800 } else { 80 }) {
                 let inp = gen_acct(&mut r, max_req / 2 + 2);
                 emit(&mut em, "adversarial", &inp);
@@ -1601,6 +1694,7 @@ fn main() {
                     close_rx_at: None,
                     acct: None,
                     backoff: (5, 2, 40),
+                    tau_kind: None,
                 };
                 let _ = k;
                 emit(&mut em, "adversarial", &inp);
